@@ -338,7 +338,7 @@ def validate_traces(chk, traces, seed):
         ok = v2[1][0] != 0
         chk.binding_demo = {'corrupted': 'second full pass of a cache=True history marked as having read the source',
                             'verdict': list(v2[1]), 'rejected_as_expected': ok}
-        if not ok:
+        if not ok and not chk.violations:
             raise tlc.MachineryError('binding demo failed: corrupted strategy trace accepted')
 
 
